@@ -4,7 +4,7 @@ use std::fmt::Write;
 
 pub type VarId = u32;
 
-#[derive(Clone, Copy, PartialEq, Eq, Hash, PartialOrd, Ord, Debug)]
+#[derive(Clone, Copy, PartialEq, Eq, Hash, PartialOrd, Ord, Debug, serde::Serialize, serde::Deserialize)]
 pub enum Kind {
     Pair,   // #[compound] struct Pair(LTerm, LTerm)
     Duo,    // #[compound] struct Duo(LTerm, LTerm)   -- same shape, other type
@@ -45,7 +45,7 @@ impl Kind {
     pub const ALL: [Kind; 6] = [Kind::Pair, Kind::Duo, Kind::Triple, Kind::Rec, Kind::Node, Kind::Tuple];
 }
 
-#[derive(Clone, PartialEq, Eq, Hash, PartialOrd, Ord, Debug)]
+#[derive(Clone, PartialEq, Eq, Hash, PartialOrd, Ord, Debug, serde::Serialize, serde::Deserialize)]
 pub enum Term {
     Int(i64),
     Bool(bool),
